@@ -252,6 +252,17 @@ func (r *e1Run) senders() []*sched.Task {
 	return out
 }
 
+// maxSenderRounds is the largest number of times one sender task came round to the top of its loop.
+func (r *e1Run) maxSenderRounds() int {
+	n := 0
+	for _, s := range r.senders() {
+		if v := s.Visits["send.top"]; v > n {
+			n = v
+		}
+	}
+	return n
+}
+
 func (r *e1Run) reader() *sched.Task {
 	if ts := r.ex.TaskList(); len(ts) > 0 {
 		return ts[0]
